@@ -367,7 +367,7 @@ func init() {
 			"plus an intruder task of tiny recycling validations; seeded schedule (random / priority / chaser / round-robin) with scheduling points at every pool, mutex and atomic operation of package validate, seeded simulated pool shared by all tasks; built with -race; " +
 			"invariants: no data race with a go-openapi frame, every outcome equals the solo outcome, the option history is linearizable (porcupine). non-trivial = at least one context switch; distinct = distinct (operation kinds, recycling edges, switch sites)",
 		Real: commonReal,
-		Stub: append(append([]string{}, commonStub...), "sync.Mutex / atomic.Value operations of package validate -> scheduling point, then the real operation (mutex: TryLock loop)", "goroutine scheduling -> baton scheduler (one runnable task at a time, seeded choice; invisible to the race detector)"),
+		Stub: append(append([]string{}, commonStub...), "sync.Mutex / sync.Locker / atomic / sync.Map / sync.Once / channel operations of package validate -> scheduling point, then the real operation (mutex: TryLock loop; channels: non-blocking retries); sync.Cond -> ticket emulation (Wait releases L and is blocked until notified)", "goroutine scheduling -> baton scheduler (one runnable task at a time, seeded choice; invisible to the race detector)"),
 		Assume: []string{
 			"preemption only at synchronisation points of package validate (complete for race-free executions; racy ones are reported by the race detector)",
 			"a race is only reported if its two accesses fall within the race detector's history window (about 16K release operations of the first thread)",
